@@ -325,7 +325,7 @@ func (v *Verifier) VerifyFunc(fc *FuncContract) (res *FuncResult) {
 	var obls []*Obligation
 	var allocs []Term
 	ex := &Exec{v: v, c: c, fn: fn, fc: fc, fname: fc.Full(), vals: map[ssa.Value]Val{}, obls: &obls,
-		count: map[string]int{}, allocs: &allocs, decAtHeader: map[*ssa.BasicBlock]Val{}, closureVals: map[Term]*ssa.MakeClosure{},
+		count: map[string]int{}, allocs: &allocs, decAtHeader: map[*ssa.BasicBlock]Val{}, headerEnv: map[*ssa.BasicBlock]*Env{}, closureVals: map[Term]*ssa.MakeClosure{},
 		stack: []string{fn.String()}}
 	ex.top = ex
 	ex.nilcheck = fc.Options["nilcheck"] != ""
